@@ -12,8 +12,9 @@
 (* Threads:  one per outgoing Call (Calls), one per Notify (Notifs), the       *)
 (* readIncoming goroutine, the handleAsync goroutine, one Respond goroutine    *)
 (* per asynchronously handled request, Cancel calls, one Close call.           *)
-(* Deliberate abstraction: the 1-buffered `writer` channel (mutual exclusion   *)
-(* of wire writes) is folded into atomic Write steps.                          *)
+(* The 1-buffered `writer` channel of conn.go (mutual exclusion of wire writes) *)
+(* is the variable `wslot`: a thread takes it (WAcq) before its Write step and  *)
+(* gives it back when Connection.write returns, i.e. after the writeErr update. *)
 EXTENDS Naturals, Sequences, FiniteSets, TLC
 
 CONSTANTS Calls,          \* ids of outgoing calls (each issued at most once)
@@ -43,14 +44,16 @@ VARIABLES
   \* API Cancel(id) calls in progress
   kpc,
   \* wire / peer / faults
-  fromPeer, sentCalls, responded, peerGone, wbroken, bogus
+  fromPeer, sentCalls, responded, peerGone, wbroken, bogus,
+  \* the writer slot: "free" or the thread inside Connection.write
+  wslot
 
 connVars == <<c, panicked>>
 callVars == <<cpc, retires, rkind, cctx>>
 readVars == <<rpc, rreq, rmsg>>
 hdlVars  == <<hpc, hreq>>
 instVars == <<nsent, rid, dup, cancelled, responses, apc, finished>>
-wireVars == <<fromPeer, sentCalls, responded, peerGone, wbroken, bogus>>
+wireVars == <<fromPeer, sentCalls, responded, peerGone, wbroken, bogus, wslot>>
 vars == <<connVars, callVars, npc, readVars, hdlVars, instVars, clpc, kpc, wireVars>>
 
 -----------------------------------------------------------------------------
@@ -88,6 +91,13 @@ Retire(i, kind) == /\ retires' = [retires EXCEPT ![i] = @ + 1]
 
 WriteFails == wbroken \/ ~c.co      \* the transport is broken or was closed by the connection
 
+FreeSlot == <<"free", 0>>
+CallT(i) == <<"call", i>>
+NotT(j)  == <<"notif", j>>
+RespT(r) == <<"resp", r>>
+ReaderT  == <<"reader", 0>>
+HandlerT == <<"handler", 0>>
+
 -----------------------------------------------------------------------------
 Init ==
   /\ c = InitC /\ panicked = FALSE
@@ -101,7 +111,7 @@ Init ==
   /\ apc = [r \in Inst |-> "none"] /\ finished = [r \in Inst |-> FALSE]
   /\ clpc = "init" /\ kpc = [i \in IncIds |-> "none"]
   /\ fromPeer = <<>> /\ sentCalls = {} /\ responded = {} /\ peerGone = FALSE
-  /\ wbroken = FALSE /\ bogus = 0
+  /\ wbroken = FALSE /\ bogus = 0 /\ wslot = FreeSlot
 
 -----------------------------------------------------------------------------
 (* Outgoing calls: conn.go Call *)
@@ -110,7 +120,7 @@ Init ==
 CRegister(i) ==
   /\ cpc[i] = "init"
   /\ IF SD(c) THEN /\ Upd(c) /\ cpc' = [cpc EXCEPT ![i] = "rejected"]
-              ELSE /\ Upd([c EXCEPT !.out = @ \cup {i}]) /\ cpc' = [cpc EXCEPT ![i] = "write"]
+              ELSE /\ Upd([c EXCEPT !.out = @ \cup {i}]) /\ cpc' = [cpc EXCEPT ![i] = "wacq"]
   /\ UNCHANGED <<retires, rkind, cctx, npc, readVars, hdlVars, instVars, clpc, kpc, wireVars>>
 
 \* Call: `ac.retire(&Response{ID: id, Error: err})` outside the lock (never registered)
@@ -120,16 +130,21 @@ CRejected(i) ==
 
 \* the caller's context is cancelled before the write
 CCtxCancel(i) ==
-  /\ AllowCtxCancel /\ cpc[i] \in {"init", "write"} /\ ~cctx[i]
+  /\ AllowCtxCancel /\ cpc[i] \in {"init", "wacq", "write"} /\ ~cctx[i]
   /\ cctx' = [cctx EXCEPT ![i] = TRUE]
   /\ UNCHANGED <<connVars, cpc, retires, rkind, npc, readVars, hdlVars, instVars, clpc, kpc, wireVars>>
 
-\* conn.go write (silent): the frame goes out, or the Write fails
+\* conn.go write: `writer := <-c.writer` (silent)
+CWAcq(i) ==
+  /\ cpc[i] = "wacq" /\ wslot = FreeSlot /\ wslot' = CallT(i) /\ cpc' = [cpc EXCEPT ![i] = "write"]
+  /\ UNCHANGED <<connVars, retires, rkind, cctx, npc, readVars, hdlVars, instVars, clpc, kpc,
+                 fromPeer, sentCalls, responded, peerGone, wbroken, bogus>>
+\* conn.go write (silent): the frame goes out, or the Write fails; the slot is returned when write returns
 CWrite(i) ==
   /\ cpc[i] = "write"
-  /\ IF cctx[i] THEN cpc' = [cpc EXCEPT ![i] = "cleanup"] /\ UNCHANGED sentCalls   \* ctx.Err() # nil: no writeErr
-     ELSE IF WriteFails THEN cpc' = [cpc EXCEPT ![i] = "werr"] /\ UNCHANGED sentCalls
-     ELSE cpc' = [cpc EXCEPT ![i] = "ret"] /\ sentCalls' = sentCalls \cup {i}
+  /\ IF cctx[i] THEN cpc' = [cpc EXCEPT ![i] = "cleanup"] /\ UNCHANGED sentCalls /\ wslot' = FreeSlot  \* ctx.Err() # nil: no writeErr
+     ELSE IF WriteFails THEN cpc' = [cpc EXCEPT ![i] = "werr"] /\ UNCHANGED <<sentCalls, wslot>>
+     ELSE cpc' = [cpc EXCEPT ![i] = "ret"] /\ sentCalls' = sentCalls \cup {i} /\ wslot' = FreeSlot
   /\ UNCHANGED <<connVars, retires, rkind, cctx, npc, readVars, hdlVars, instVars, clpc, kpc,
                  fromPeer, responded, peerGone, wbroken, bogus>>
 
@@ -139,9 +154,9 @@ CancelAllById == [r \in Inst |-> cancelled[r] \/ (\E i \in IncIds : c.by[i] = r)
 CWErr(i) ==
   /\ cpc[i] = "werr" /\ Upd(WErrC(c))
   /\ cancelled' = IF c.we THEN cancelled ELSE CancelAllById
-  /\ cpc' = [cpc EXCEPT ![i] = "cleanup"]
+  /\ cpc' = [cpc EXCEPT ![i] = "cleanup"] /\ wslot' = FreeSlot
   /\ UNCHANGED <<retires, rkind, cctx, npc, readVars, hdlVars, nsent, rid, dup, responses, apc, finished,
-                 clpc, kpc, wireVars>>
+                 clpc, kpc, fromPeer, sentCalls, responded, peerGone, wbroken, bogus>>
 
 \* [upd: Call] write failed: retire unless readIncoming already did
 CCleanup(i) ==
@@ -159,19 +174,26 @@ NBegin(j) ==
   /\ npc[j] = "init"
   /\ IF c.out = {} /\ ById(c) = {} /\ SD(c)
        THEN Upd(c) /\ npc' = [npc EXCEPT ![j] = "ret"]
-       ELSE Upd([c EXCEPT !.on = @ + 1]) /\ npc' = [npc EXCEPT ![j] = "write"]
+       ELSE Upd([c EXCEPT !.on = @ + 1]) /\ npc' = [npc EXCEPT ![j] = "wacq"]
   /\ UNCHANGED <<callVars, readVars, hdlVars, instVars, clpc, kpc, wireVars>>
 \* write (silent)
+NWAcq(j) ==
+  /\ npc[j] = "wacq" /\ wslot = FreeSlot /\ wslot' = NotT(j) /\ npc' = [npc EXCEPT ![j] = "write"]
+  /\ UNCHANGED <<connVars, callVars, readVars, hdlVars, instVars, clpc, kpc,
+                 fromPeer, sentCalls, responded, peerGone, wbroken, bogus>>
 NWrite(j) ==
   /\ npc[j] = "write"
   /\ npc' = [npc EXCEPT ![j] = IF WriteFails THEN "werr" ELSE "end"]
-  /\ UNCHANGED <<connVars, callVars, readVars, hdlVars, instVars, clpc, kpc, wireVars>>
+  /\ wslot' = IF WriteFails THEN wslot ELSE FreeSlot
+  /\ UNCHANGED <<connVars, callVars, readVars, hdlVars, instVars, clpc, kpc,
+                 fromPeer, sentCalls, responded, peerGone, wbroken, bogus>>
 \* [upd: write]
 NWErr(j) ==
   /\ npc[j] = "werr" /\ Upd(WErrC(c))
   /\ cancelled' = IF c.we THEN cancelled ELSE CancelAllById
-  /\ npc' = [npc EXCEPT ![j] = "end"]
-  /\ UNCHANGED <<callVars, readVars, hdlVars, nsent, rid, dup, responses, apc, finished, clpc, kpc, wireVars>>
+  /\ npc' = [npc EXCEPT ![j] = "end"] /\ wslot' = FreeSlot
+  /\ UNCHANGED <<callVars, readVars, hdlVars, nsent, rid, dup, responses, apc, finished, clpc, kpc,
+                 fromPeer, sentCalls, responded, peerGone, wbroken, bogus>>
 \* [upd: NotifyDefer] the deferred decrement
 NEnd(j) ==
   /\ npc[j] = "end"
@@ -201,7 +223,7 @@ RRead ==
   /\ rmsg' = Head(fromPeer) /\ fromPeer' = Tail(fromPeer)
   /\ rpc' = IF Head(fromPeer).t = "resp" THEN "resp" ELSE "accept"
   /\ rreq' = IF Head(fromPeer).t = "req" THEN Head(fromPeer).r ELSE 0
-  /\ UNCHANGED <<connVars, callVars, npc, hdlVars, instVars, clpc, kpc, sentCalls, responded, peerGone, wbroken, bogus>>
+  /\ UNCHANGED <<connVars, callVars, npc, hdlVars, instVars, clpc, kpc, sentCalls, responded, peerGone, wbroken, bogus, wslot>>
 \* reader.Read fails: the peer hung up (after everything queued was read) or the closer was closed (silent)
 RReadErr ==
   /\ rpc = "read" /\ c.rd
@@ -248,18 +270,24 @@ REnqueue ==
   /\ UNCHANGED <<callVars, npc, rreq, rmsg, hreq, instVars, clpc, kpc, wireVars>>
 \* reader's processResult
 RPRDel ==
-  /\ rpc = "pr_del" /\ Upd(PRDelC(rreq)) /\ rpc' = "pr_write"
+  /\ rpc = "pr_del" /\ Upd(PRDelC(rreq)) /\ rpc' = "pr_wacq"
   /\ UNCHANGED <<callVars, npc, rreq, rmsg, hdlVars, instVars, clpc, kpc, wireVars>>
+RPRWAcq ==
+  /\ rpc = "pr_wacq" /\ wslot = FreeSlot /\ wslot' = ReaderT /\ rpc' = "pr_write"
+  /\ UNCHANGED <<connVars, callVars, npc, rreq, rmsg, hdlVars, instVars, clpc, kpc,
+                 fromPeer, sentCalls, responded, peerGone, wbroken, bogus>>
 RPRWrite ==
   /\ rpc = "pr_write"
-  /\ IF WriteFails THEN rpc' = "pr_werr" /\ UNCHANGED responses
-                   ELSE rpc' = "pr_decr" /\ responses' = [responses EXCEPT ![rreq] = @ + 1]
-  /\ UNCHANGED <<connVars, callVars, npc, rreq, rmsg, hdlVars, nsent, rid, dup, cancelled, apc, finished, clpc, kpc, wireVars>>
+  /\ IF WriteFails THEN rpc' = "pr_werr" /\ UNCHANGED <<responses, wslot>>
+                   ELSE rpc' = "pr_decr" /\ responses' = [responses EXCEPT ![rreq] = @ + 1] /\ wslot' = FreeSlot
+  /\ UNCHANGED <<connVars, callVars, npc, rreq, rmsg, hdlVars, nsent, rid, dup, cancelled, apc, finished, clpc, kpc,
+                 fromPeer, sentCalls, responded, peerGone, wbroken, bogus>>
 RPRWErr ==
   /\ rpc = "pr_werr" /\ Upd(WErrC(c))
   /\ cancelled' = IF c.we THEN cancelled ELSE CancelAllById
-  /\ rpc' = "pr_decr"
-  /\ UNCHANGED <<callVars, npc, rreq, rmsg, hdlVars, nsent, rid, dup, responses, apc, finished, clpc, kpc, wireVars>>
+  /\ rpc' = "pr_decr" /\ wslot' = FreeSlot
+  /\ UNCHANGED <<callVars, npc, rreq, rmsg, hdlVars, nsent, rid, dup, responses, apc, finished, clpc, kpc,
+                 fromPeer, sentCalls, responded, peerGone, wbroken, bogus>>
 RPRDecr ==
   /\ rpc = "pr_decr" /\ UpdP(PRDecC, c.inc = 0) /\ rpc' = "read"
   /\ cancelled' = [cancelled EXCEPT ![rreq] = TRUE] /\ finished' = [finished EXCEPT ![rreq] = TRUE]
@@ -294,18 +322,24 @@ HHandleAsync ==
   /\ apc' = [apc EXCEPT ![hreq] = "pending"] /\ hpc' = "dequeue"
   /\ UNCHANGED <<connVars, callVars, npc, readVars, hreq, nsent, rid, dup, cancelled, responses, finished, clpc, kpc, wireVars>>
 HPRDel ==
-  /\ hpc = "pr_del" /\ Upd(PRDelC(hreq)) /\ hpc' = "pr_write"
+  /\ hpc = "pr_del" /\ Upd(PRDelC(hreq)) /\ hpc' = "pr_wacq"
   /\ UNCHANGED <<callVars, npc, readVars, hreq, instVars, clpc, kpc, wireVars>>
+HPRWAcq ==
+  /\ hpc = "pr_wacq" /\ wslot = FreeSlot /\ wslot' = HandlerT /\ hpc' = "pr_write"
+  /\ UNCHANGED <<connVars, callVars, npc, readVars, hreq, instVars, clpc, kpc,
+                 fromPeer, sentCalls, responded, peerGone, wbroken, bogus>>
 HPRWrite ==
   /\ hpc = "pr_write"
-  /\ IF WriteFails THEN hpc' = "pr_werr" /\ UNCHANGED responses
-                   ELSE hpc' = "pr_decr" /\ responses' = [responses EXCEPT ![hreq] = @ + 1]
-  /\ UNCHANGED <<connVars, callVars, npc, readVars, hreq, nsent, rid, dup, cancelled, apc, finished, clpc, kpc, wireVars>>
+  /\ IF WriteFails THEN hpc' = "pr_werr" /\ UNCHANGED <<responses, wslot>>
+                   ELSE hpc' = "pr_decr" /\ responses' = [responses EXCEPT ![hreq] = @ + 1] /\ wslot' = FreeSlot
+  /\ UNCHANGED <<connVars, callVars, npc, readVars, hreq, nsent, rid, dup, cancelled, apc, finished, clpc, kpc,
+                 fromPeer, sentCalls, responded, peerGone, wbroken, bogus>>
 HPRWErr ==
   /\ hpc = "pr_werr" /\ Upd(WErrC(c))
   /\ cancelled' = IF c.we THEN cancelled ELSE CancelAllById
-  /\ hpc' = "pr_decr"
-  /\ UNCHANGED <<callVars, npc, readVars, hreq, nsent, rid, dup, responses, apc, finished, clpc, kpc, wireVars>>
+  /\ hpc' = "pr_decr" /\ wslot' = FreeSlot
+  /\ UNCHANGED <<callVars, npc, readVars, hreq, nsent, rid, dup, responses, apc, finished, clpc, kpc,
+                 fromPeer, sentCalls, responded, peerGone, wbroken, bogus>>
 HPRDecr ==
   /\ hpc = "pr_decr" /\ UpdP(PRDecC, c.inc = 0) /\ hpc' = "dequeue"
   /\ cancelled' = [cancelled EXCEPT ![hreq] = TRUE] /\ finished' = [finished EXCEPT ![hreq] = TRUE]
@@ -319,18 +353,24 @@ ARespLookup(r) ==
   /\ apc[r] = "pending" /\ Upd(c) /\ apc' = [apc EXCEPT ![r] = "pr_del"]
   /\ UNCHANGED <<callVars, npc, readVars, hdlVars, nsent, rid, dup, cancelled, responses, finished, clpc, kpc, wireVars>>
 APRDel(r) ==
-  /\ apc[r] = "pr_del" /\ Upd(PRDelC(r)) /\ apc' = [apc EXCEPT ![r] = "pr_write"]
+  /\ apc[r] = "pr_del" /\ Upd(PRDelC(r)) /\ apc' = [apc EXCEPT ![r] = "pr_wacq"]
   /\ UNCHANGED <<callVars, npc, readVars, hdlVars, nsent, rid, dup, cancelled, responses, finished, clpc, kpc, wireVars>>
+APRWAcq(r) ==
+  /\ apc[r] = "pr_wacq" /\ wslot = FreeSlot /\ wslot' = RespT(r) /\ apc' = [apc EXCEPT ![r] = "pr_write"]
+  /\ UNCHANGED <<connVars, callVars, npc, readVars, hdlVars, nsent, rid, dup, cancelled, responses, finished, clpc, kpc,
+                 fromPeer, sentCalls, responded, peerGone, wbroken, bogus>>
 APRWrite(r) ==
   /\ apc[r] = "pr_write"
-  /\ IF WriteFails THEN apc' = [apc EXCEPT ![r] = "pr_werr"] /\ UNCHANGED responses
-                   ELSE apc' = [apc EXCEPT ![r] = "pr_decr"] /\ responses' = [responses EXCEPT ![r] = @ + 1]
-  /\ UNCHANGED <<connVars, callVars, npc, readVars, hdlVars, nsent, rid, dup, cancelled, finished, clpc, kpc, wireVars>>
+  /\ IF WriteFails THEN apc' = [apc EXCEPT ![r] = "pr_werr"] /\ UNCHANGED <<responses, wslot>>
+                   ELSE apc' = [apc EXCEPT ![r] = "pr_decr"] /\ responses' = [responses EXCEPT ![r] = @ + 1] /\ wslot' = FreeSlot
+  /\ UNCHANGED <<connVars, callVars, npc, readVars, hdlVars, nsent, rid, dup, cancelled, finished, clpc, kpc,
+                 fromPeer, sentCalls, responded, peerGone, wbroken, bogus>>
 APRWErr(r) ==
   /\ apc[r] = "pr_werr" /\ Upd(WErrC(c))
   /\ cancelled' = IF c.we THEN cancelled ELSE CancelAllById
-  /\ apc' = [apc EXCEPT ![r] = "pr_decr"]
-  /\ UNCHANGED <<callVars, npc, readVars, hdlVars, nsent, rid, dup, responses, finished, clpc, kpc, wireVars>>
+  /\ apc' = [apc EXCEPT ![r] = "pr_decr"] /\ wslot' = FreeSlot
+  /\ UNCHANGED <<callVars, npc, readVars, hdlVars, nsent, rid, dup, responses, finished, clpc, kpc,
+                 fromPeer, sentCalls, responded, peerGone, wbroken, bogus>>
 APRDecr(r) ==
   /\ apc[r] = "pr_decr" /\ UpdP(PRDecC, c.inc = 0) /\ apc' = [apc EXCEPT ![r] = "done"]
   /\ cancelled' = [cancelled EXCEPT ![r] = TRUE] /\ finished' = [finished EXCEPT ![r] = TRUE]
@@ -364,31 +404,31 @@ CloseWait ==
 PeerRespond(i) ==
   /\ i \in sentCalls \ responded /\ ~peerGone
   /\ fromPeer' = Append(fromPeer, [t |-> "resp", id |-> i]) /\ responded' = responded \cup {i}
-  /\ UNCHANGED <<connVars, callVars, npc, readVars, hdlVars, instVars, clpc, kpc, sentCalls, peerGone, wbroken, bogus>>
+  /\ UNCHANGED <<connVars, callVars, npc, readVars, hdlVars, instVars, clpc, kpc, sentCalls, peerGone, wbroken, bogus, wslot>>
 \* a response nobody is waiting for (unknown or already answered id)
 PeerBogus(i) ==
   /\ AllowBogus /\ bogus = 0 /\ ~peerGone /\ i \in responded
   /\ fromPeer' = Append(fromPeer, [t |-> "resp", id |-> i]) /\ bogus' = 1
-  /\ UNCHANGED <<connVars, callVars, npc, readVars, hdlVars, instVars, clpc, kpc, sentCalls, responded, peerGone, wbroken>>
+  /\ UNCHANGED <<connVars, callVars, npc, readVars, hdlVars, instVars, clpc, kpc, sentCalls, responded, peerGone, wbroken, wslot>>
 PeerSend(id) ==
   /\ nsent < MaxInc /\ ~peerGone
   /\ nsent' = nsent + 1 /\ rid' = [rid EXCEPT ![nsent + 1] = id]
   /\ fromPeer' = Append(fromPeer, [t |-> "req", r |-> nsent + 1])
   /\ UNCHANGED <<connVars, callVars, npc, readVars, hdlVars, dup, cancelled, responses, apc, finished, clpc, kpc,
-                 sentCalls, responded, peerGone, wbroken, bogus>>
+                 sentCalls, responded, peerGone, wbroken, bogus, wslot>>
 PeerHangup ==
   /\ AllowPeerGone /\ ~peerGone /\ peerGone' = TRUE
-  /\ UNCHANGED <<connVars, callVars, npc, readVars, hdlVars, instVars, clpc, kpc, fromPeer, sentCalls, responded, wbroken, bogus>>
+  /\ UNCHANGED <<connVars, callVars, npc, readVars, hdlVars, instVars, clpc, kpc, fromPeer, sentCalls, responded, wbroken, bogus, wslot>>
 WBreak ==
   /\ AllowWBreak /\ ~wbroken /\ wbroken' = TRUE
-  /\ UNCHANGED <<connVars, callVars, npc, readVars, hdlVars, instVars, clpc, kpc, fromPeer, sentCalls, responded, peerGone, bogus>>
+  /\ UNCHANGED <<connVars, callVars, npc, readVars, hdlVars, instVars, clpc, kpc, fromPeer, sentCalls, responded, peerGone, bogus, wslot>>
 
 -----------------------------------------------------------------------------
-CallStep(i) == CRegister(i) \/ CRejected(i) \/ CWrite(i) \/ CWErr(i) \/ CCleanup(i)
-NotifStep(j) == NBegin(j) \/ NWrite(j) \/ NWErr(j) \/ NEnd(j)
-ReaderStep == RRead \/ RReadErr \/ RResponse \/ RExit \/ RAccept \/ REnqueue \/ RPRDel \/ RPRWrite \/ RPRWErr \/ RPRDecr
-HandlerStep == HDequeue \/ HCheck \/ HCancelChk \/ HHandleSync \/ HHandleAsync \/ HPRDel \/ HPRWrite \/ HPRWErr \/ HPRDecr
-RespStep(r) == ARespLookup(r) \/ APRDel(r) \/ APRWrite(r) \/ APRWErr(r) \/ APRDecr(r)
+CallStep(i) == CRegister(i) \/ CRejected(i) \/ CWAcq(i) \/ CWrite(i) \/ CWErr(i) \/ CCleanup(i)
+NotifStep(j) == NBegin(j) \/ NWAcq(j) \/ NWrite(j) \/ NWErr(j) \/ NEnd(j)
+ReaderStep == RRead \/ RReadErr \/ RResponse \/ RExit \/ RAccept \/ REnqueue \/ RPRDel \/ RPRWAcq \/ RPRWrite \/ RPRWErr \/ RPRDecr
+HandlerStep == HDequeue \/ HCheck \/ HCancelChk \/ HHandleSync \/ HHandleAsync \/ HPRDel \/ HPRWAcq \/ HPRWrite \/ HPRWErr \/ HPRDecr
+RespStep(r) == ARespLookup(r) \/ APRDel(r) \/ APRWAcq(r) \/ APRWrite(r) \/ APRWErr(r) \/ APRDecr(r)
 EnvStep == (\E i \in Calls : PeerRespond(i) \/ PeerBogus(i) \/ CCtxCancel(i))
            \/ (\E id \in IncIds \cup {NoId} : PeerSend(id))
            \/ PeerHangup \/ WBreak \/ (\E i \in IncIds : KLookup(i) \/ KCancel(i))
@@ -404,8 +444,8 @@ Next == \/ \E i \in Calls : CallStep(i)
 \* (or hangs up); asynchronous handlers eventually call Respond.  Nothing forces the application to
 \* start calls, close, cancel, or the faults to happen.
 Fairness ==
-  /\ \A i \in Calls : WF_vars(CRejected(i) \/ CWrite(i) \/ CWErr(i) \/ CCleanup(i))
-  /\ \A j \in Notifs : WF_vars(NWrite(j) \/ NWErr(j) \/ NEnd(j))
+  /\ \A i \in Calls : WF_vars(CRejected(i) \/ CWAcq(i) \/ CWrite(i) \/ CWErr(i) \/ CCleanup(i))
+  /\ \A j \in Notifs : WF_vars(NWAcq(j) \/ NWrite(j) \/ NWErr(j) \/ NEnd(j))
   /\ WF_vars(ReaderStep) /\ WF_vars(HandlerStep)
   /\ \A r \in Inst : WF_vars(RespStep(r))
   /\ WF_vars(CloseWait)
@@ -434,10 +474,17 @@ CloseOnlyWhenDone == clpc = "ret" => c.dn
 NoHandlerAfterClose == clpc = "ret" => (hpc = "off" /\ c.hq = <<>> /\ \A r \in Inst : apc[r] \in {"none", "done"})
 NoInternalPanic == ~panicked
 \* bookkeeping consistency of the design (what conn.go's comments promise)
-OutgoingAreUnretired == \A i \in c.out : retires[i] = 0 /\ cpc[i] \in {"write", "werr", "cleanup", "ret"}
+OutgoingAreUnretired == \A i \in c.out : retires[i] = 0 /\ cpc[i] \in {"wacq", "write", "werr", "cleanup", "ret"}
 IncomingCounts == c.inc >= Cardinality(ById(c))
 CloserClosedOnlyWhenShuttingDown == ~c.co => SD(c)
 HandlerRunningIffGoroutine == c.hr <=> (hpc # "off")
+\* the writer slot is held exactly by the thread that is inside Connection.write
+SlotHeldByWriter ==
+  /\ \A i \in Calls : (wslot = CallT(i)) <=> (cpc[i] \in {"write", "werr"})
+  /\ \A j \in Notifs : (wslot = NotT(j)) <=> (npc[j] \in {"write", "werr"})
+  /\ (wslot = ReaderT) <=> (rpc \in {"pr_write", "pr_werr"})
+  /\ (wslot = HandlerT) <=> (hpc \in {"pr_write", "pr_werr"})
+  /\ \A r \in Inst : (wslot = RespT(r)) <=> (apc[r] \in {"pr_write", "pr_werr"})
 
 \* every call that was issued is eventually retired
 Retired == \A i \in Calls : (cpc[i] # "init") ~> (retires[i] = 1)
